@@ -284,4 +284,18 @@ theorem refines_run (ops : List Op) (lo : Nat) (s : State) (σ : Spec) (h : Refi
     · intro t ht
       exact ⟨hlo, hM t ht⟩
 
+/-- with distinct keys, every stored pair is what a lookup of its key finds -/
+theorem lookup_of_mem (s : State) (p : Key × Item) (hs : NoDup s) (hp : p ∈ s) :
+    lookup s p.1 = some p.2 := by
+  induction s with
+  | nil => cases hp
+  | cons q rest ih =>
+    obtain ⟨a, it⟩ := q
+    have hs' := List.pairwise_cons.mp hs
+    rcases List.mem_cons.mp hp with rfl | hp'
+    · simp [lookup]
+    · have hne : a ≠ p.1 := hs'.1 p hp'
+      simp only [lookup, hne, if_false]
+      exact ih hs'.2 hp'
+
 end Scion.RevCache
